@@ -19,7 +19,7 @@
 //@item src/engine/target_actor/mod.rs ActorInputMessage
 //@item src/engine/target_actor/mod.rs TargetActorOutputMessage
 //@item src/engine/target_actor/mod.rs ActorId
-//@item src/engine/target_actor/mod.rs ExecutionKind
+//@item src/engine/target_actor/mod.rs ExecutionKind dropderive=PartialEq
 //@item src/main.rs TerminationMessage
 //@item src/engine/watcher.rs TargetInvalidatedMessage
 //@item src/engine/builder.rs BuildCancellationMessage
@@ -57,6 +57,12 @@ impl Clone for ExecutionKind {
     fn clone(&self) -> (r: Self) ensures r == *self { unimplemented!() }
 }
 impl Copy for ExecutionKind {}
+/// derived `PartialEq` of a field-less enum: structural equality (A-hash); written out because the derive carries no
+/// specification, so `kind == ExecutionKind::Build` in the actors would be an unknown boolean
+impl PartialEq for ExecutionKind {
+    #[verifier::external_body]
+    fn eq(&self, o: &ExecutionKind) -> (r: bool) ensures r == (*self == *o) { unimplemented!() }
+}
 
 // ===========================================================================
 // ghost state (DESIGN §5)
@@ -110,6 +116,8 @@ pub tracked struct Trace {
     pub ghost n_out: nat,
     pub ghost n_err: nat,
     pub ghost starts: Seq<StartRec>,
+    /// length of the delivery log when the latest execution was started (`set_execution_started`)
+    pub ghost last_start_at: nat,
     /// the last completed run of the build future was Skipped or Completed and nothing was started since
     pub ghost last_done_ok: bool,
     /// a file watcher holds the sender of the invalidation channel (watch mode and the target has inputs)
@@ -190,7 +198,7 @@ impl Trace {
     }
     /// nothing was sent, started, spawned or delivered between `self` and `o` except status words / requests
     pub open spec fn same_but_sends(self, o: Trace) -> bool {
-        &&& self.me == o.me && self.inlog == o.inlog && self.unreq == o.unreq && self.starts == o.starts
+        &&& self.me == o.me && self.inlog == o.inlog && self.unreq == o.unreq && self.starts == o.starts && self.last_start_at == o.last_start_at
         &&& self.last_done_ok == o.last_done_ok && self.watcher_present == o.watcher_present
         &&& self.cancels_sent == o.cancels_sent && self.spawn_calls == o.spawn_calls && self.spawned == o.spawned && self.killed == o.killed && self.waited == o.waited
         &&& self.n_err == o.n_err && self.term_seen == o.term_seen
@@ -640,6 +648,23 @@ pub open spec fn count_inval(log: Seq<Ev>) -> nat
     }
 }
 
+/// [C06.stimulus-kept] an invalidation stimulus for this actor: a change notification of its own inputs, or a
+/// dependency's `Invalidated` (of the build kind for a build actor - a restarted service does not rebuild its
+/// dependents - of either kind for a service actor)
+pub open spec fn is_stim(e: Ev, service: bool) -> bool {
+    match e {
+        Ev::Inval(_) => true,
+        Ev::Msg(Some(ActorInputMessage::Invalidated { kind, .. })) => service || kind == ExecutionKind::Build,
+        _ => false,
+    }
+}
+/// a stimulus was delivered at or after position `from` of the log
+pub open spec fn stim_since(log: Seq<Ev>, from: nat, service: bool) -> bool
+    decreases log.len()
+{
+    if log.len() <= from { false } else { stim_since(log.drop_last(), from, service) || is_stim(log.last(), service) }
+}
+
 /// number of completed runs of the build future
 pub open spec fn count_done(log: Seq<Ev>) -> nat
     decreases log.len()
@@ -814,13 +839,15 @@ impl BuildTargetActor {
                 /*[C04.ack]*/ told_if(&self.helper, *tr, ExecutionKind::Build, self.helper.executed && !self.helper.to_execute),
                 /*[C11.build-false]*/ only_ok_actual(*tr, ExecutionKind::Service, false),
                 /*[C11.build-true]*/ oks_actual(*tr, ExecutionKind::Build, true),
-                termination_event_received == tr.term_seen,
+                /*[C04.no-early-exit]*/ termination_event_received ==> tr.term_seen,
+                /*[C10.cancel-on-term]*/ tr.term_seen ==> termination_event_received,
                 /*[C04.no-unrequest]*/ tr.sent_unreq ==> nonempty(tr.unreq),
                 /*[C08.no-inval-oneshot]*/ tr.sent_inval ==> count_inval(tr.inlog) > 0,
                 /*[C04.request-deps]*/ self.helper.req(ExecutionKind::Build).len() > 0 ==> deps_requested(&self.helper, *tr, ExecutionKind::Build) && deps_requested(&self.helper, *tr, ExecutionKind::Service),
                 /*[C08.once-local]*/ tr.starts.len() + (if self.helper.to_execute { 1nat } else { 0nat }) <= 1 + count_inval(tr.inlog),
                 count_done(tr.inlog) + (if ongoing_build_fuse.running() { 1nat } else { 0nat }) == tr.starts.len(),
                 /*[C07.no-ack-on-failure]*/ tr.n_err <= count_done(tr.inlog),
+                /*[C06.stimulus-kept]*/ stim_since(tr.inlog, tr.last_start_at, false) ==> self.helper.to_execute,
             ensures
                 /*[C10.cancel-on-term]*/ !ongoing_build_fuse.running(),
                 /*[C04.no-early-exit]*/ tr.term_seen,
@@ -833,6 +860,9 @@ impl BuildTargetActor {
                 assert(/*[C08.once-local]*/ self.helper.to_execute);
 //@after 0 `ongoing_build_fuse.set(`
                 assert(/*[C02.wiring]*/ self.wired_last(*tr));
+//@after 0 `self.helper.set_execution_started();`
+                // [C06.stimulus-kept] a start consumes the stimuli delivered so far; later ones must keep `to_execute` set
+                proof { tr.last_start_at = tr.inlog.len(); }
 //@select 0 enum=Ev oracle=`select_build(&mut ongoing_build_fuse, &self.helper)`
 //@arm Term `self.helper.termination_events.next().fuse()`
 //@arm Inval `self.helper.target_invalidated_events.next().fuse()`
@@ -845,6 +875,7 @@ impl BuildTargetActor {
                 reveal_with_fuel(unavail_of, 2);
                 reveal_with_fuel(count_inval, 2);
                 reveal_with_fuel(count_done, 2);
+                reveal_with_fuel(stim_since, 2);
                 let ghost ev_g = __ev;
                 if let Ev::Msg(Some(ActorInputMessage::Unrequested { kind, requester })) = ev_g {
                     assert(tr.unreq.contains((requester, kind)));
@@ -963,6 +994,7 @@ impl ServiceTargetActor {
                 /*[C04.request-deps]*/ self.helper.req(ExecutionKind::Service).len() > 0 ==> deps_requested(&self.helper, *tr, ExecutionKind::Build) && deps_requested(&self.helper, *tr, ExecutionKind::Service),
                 /*[C08.once-local]*/ tr.spawn_calls + (if self.helper.to_execute { 1nat } else { 0nat }) <= 1 + count_inval(tr.inlog),
                 /*[C07.no-ack-on-failure]*/ tr.n_err <= tr.spawn_calls,
+                /*[C06.stimulus-kept]*/ stim_since(tr.inlog, tr.last_start_at, true) ==> self.helper.to_execute,
             ensures
                 /*[C04.no-early-exit]*/ tr.term_seen,
 //@loopbody
@@ -972,6 +1004,8 @@ impl ServiceTargetActor {
                 proof { lemma_start_ready(&self.helper, *tr); }
                 assert(/*[C01.start-service]*/ all_deps_ok(&self.helper, *tr));
                 assert(/*[C08.once-local]*/ self.helper.to_execute);
+//@after 0 `self.helper.set_execution_started();`
+                proof { tr.last_start_at = tr.inlog.len(); }
 //@select 0 enum=Ev oracle=`select_service(&self.helper)` fallback
 //@arm Term `self.helper.termination_events.next().fuse()`
 //@arm Inval `self.helper.target_invalidated_events.next().fuse()`
@@ -982,6 +1016,7 @@ impl ServiceTargetActor {
                 assert(tr.inlog.drop_last() == log0);
                 reveal_with_fuel(unavail_of, 2);
                 reveal_with_fuel(count_inval, 2);
+                reveal_with_fuel(stim_since, 2);
                 let ghost ev_g = __ev;
                 if let Ev::Msg(Some(ActorInputMessage::Unrequested { kind, requester })) = ev_g {
                     assert(tr.unreq.contains((requester, kind)));
@@ -1129,13 +1164,13 @@ impl AggregateTargetActor {
                                 let sent = inserted && self.helper.un(kind).len() == 1;
                                 if kind == ExecutionKind::Build {
                                     if sent {
-                                        lemma_ack_bcast_inval(self.helper.req(ExecutionKind::Build), tr_pre1.last_b, tr.last_b, tr.unreq, ExecutionKind::Build, un_b1.len() == 0);
+                                        /*[C01.ok-aggregate]*/ lemma_ack_bcast_inval(self.helper.req(ExecutionKind::Build), tr_pre1.last_b, tr.last_b, tr.unreq, ExecutionKind::Build, un_b1.len() == 0);
                                     } else {
                                         assert(un_b1.len() > 0);
                                     }
                                 } else {
                                     if sent {
-                                        lemma_ack_bcast_inval(self.helper.req(ExecutionKind::Service), tr_pre1.last_s, tr.last_s, tr.unreq, ExecutionKind::Service, un_s1.len() == 0);
+                                        /*[C01.ok-aggregate]*/ lemma_ack_bcast_inval(self.helper.req(ExecutionKind::Service), tr_pre1.last_s, tr.last_s, tr.unreq, ExecutionKind::Service, un_s1.len() == 0);
                                     } else {
                                         assert(un_s1.len() > 0);
                                     }
@@ -1146,12 +1181,12 @@ impl AggregateTargetActor {
                                 let sent = removed && self.helper.un(kind).len() == 0;
                                 if kind == ExecutionKind::Build {
                                     if sent {
-                                        lemma_ack_bcast_ok(self.helper.req(ExecutionKind::Build), tr_pre.last_b, tr.last_b, tr.unreq, ExecutionKind::Build, un_b0.len() == 0,
+                                        /*[C01.ok-aggregate,C04.ack]*/ lemma_ack_bcast_ok(self.helper.req(ExecutionKind::Build), tr_pre.last_b, tr.last_b, tr.unreq, ExecutionKind::Build, un_b0.len() == 0,
                                             Word::Ok { actual: dependencies@[ExecutionKind::Build]@.len() != 0, dep_actual: actual_of(tr_pre.inlog, ExecutionKind::Build).len() > 0 });
                                     }
                                 } else {
                                     if sent {
-                                        lemma_ack_bcast_ok(self.helper.req(ExecutionKind::Service), tr_pre.last_s, tr.last_s, tr.unreq, ExecutionKind::Service, un_s0.len() == 0,
+                                        /*[C01.ok-aggregate,C04.ack]*/ lemma_ack_bcast_ok(self.helper.req(ExecutionKind::Service), tr_pre.last_s, tr.last_s, tr.unreq, ExecutionKind::Service, un_s0.len() == 0,
                                             Word::Ok { actual: dependencies@[ExecutionKind::Service]@.len() != 0, dep_actual: actual_of(tr_pre.inlog, ExecutionKind::Service).len() > 0 });
                                     }
                                 }
